@@ -82,13 +82,14 @@ def log(l):
     return C.cq_list(["(%s, %s)" % (VERB[v], S(n)) for v, n in (l or [])])
 
 
-def step(st, ob):
+def step(st, ob, delivery=False):
     odd = bool(ob.get("unexpected")) or bool(ob.get("panic")) or ob["fresh_cert_err"] in ("panic", "harness") or ob["fresh_dns_err"] in ("panic", "harness")
-    return "(mkOstep %s %s %s %s %s %s %s %s %s %s %s %s %s %s %s %s %s %s %s)" % (
+    nox = bool(delivery and (st["cm_faults"] or st["dns_faults"]))
+    return "(mkOstep %s %s %s %s %s %s %s %s %s %s %s %s %s %s %s %s %s %s %s %s)" % (
         vs(st["vs"]), faults(st["cm_faults"]), faults(st["dns_faults"]),
         log(ob["cm"]["log"]), result(ob["cm"]["err"]), store(ob["cm"]["store"], cert),
         log(ob["dns"]["log"]), result(ob["dns"]["err"]), store(ob["dns"]["store"], dnsep),
-        C.cq_opt(ob["cm"].get("pre"), lambda l: store(l, cert)), C.cq_opt(ob["dns"].get("pre"), lambda l: store(l, dnsep)),
+        B(nox), C.cq_opt(ob["cm"].get("pre"), lambda l: store(l, cert)), C.cq_opt(ob["dns"].get("pre"), lambda l: store(l, dnsep)),
         C.cq_opt(ob["cm"].get("cache"), lambda l: store(l, cert)), C.cq_opt(ob["dns"].get("cache"), lambda l: store(l, dnsep)),
         B(bool(ob.get("cache_mutated"))), B(odd), C.cq_opt(ob["fresh_cert"], cert), result(ob["fresh_cert_err"]),
         C.cq_opt(ob["fresh_dns"], dnsep), result(ob["fresh_dns_err"]))
@@ -100,7 +101,7 @@ def cmpset(p):
 
 def case_to_coq(c, probe):
     obs = c["obs"]["steps"]
-    steps = C.cq_list([step(st, ob) for st, ob in zip(c["steps"], obs)])
+    steps = C.cq_list([step(st, ob, bool(c.get("delivery"))) for st, ob in zip(c["steps"], obs)])
     return "c20_case %d %s %s %s\n     %s" % (c["id"], cmpset(probe), store(c["init_certs"], cert), store(c["init_dns"], dnsep), steps)
 
 
@@ -186,6 +187,7 @@ def judge(run, cases, res, probe):
                 dl["virtualserver_events_offered"] += 1 if d.get("vs_event") in ("add", "update") else 0
                 dl["derived_object_events_handled"] += d.get("derived_evts", 0)
                 dl["processItem_runs"] += len(d.get("processed") or [])
+                dl["steps_with_a_failed_write_and_retry"] = dl.get("steps_with_a_failed_write_and_retry", 0) + (1 if (st["cm_faults"] or st["dns_faults"]) else 0)
                 dl["foreign_deletes_or_edits_of_derived_objects"] += 1 if (ob["cm"].get("pre") is not None or ob["dns"].get("pre") is not None) else 0
         if cbad >= 0:
             mut = c["obs"]["steps"][cbad].get("cache_mutated") or []
@@ -238,7 +240,9 @@ TRUSTED = [
     "delivery family: the controllers are built by the production NewController (externaldns) / assembled like NewCmController with the production "
     "addHandlers (certmanager); their informers are not started (the fake clientset cannot LIST DNSEndpoints), the harness feeds the informers' indexers "
     "and calls handler values constructed by the hook files exactly as newNamespacedInformer / addHandlers construct the ones they register "
-    "(QueuingEventHandler{Queue}, BlockingEventHandler{externalDNSHandler / certificateHandler}); the registration calls themselves and the informer "
+    "(QueuingEventHandler{Queue}, BlockingEventHandler{externalDNSHandler / certificateHandler}); the production runWorker loops run on the real work queue "
+    "behind a wrapper whose Get reports shut-down when nothing is queued and whose AddRateLimited re-adds without delay (an item failing 6 times in a row "
+    "waits for the next step); the registration calls themselves and the informer "
     "machinery of client-go are not exercised; generation / resourceVersion bookkeeping of the API server is reproduced by the harness",
     "library verdicts used as oracles and passed to the model: time.ParseDuration, validation.IsValidIP, netutils.ParseIPSloppy; the cert-manager "
     "key-usage table is transcribed (23 names) and compared through the harness",
@@ -293,7 +297,7 @@ def check(run):
                        "external endpoints, feature removal, re-sync without edit, retry after a failed write, another VirtualServer / same name with a new uid), "
                        "API faults popped per write; one history in eight (class delivery, plus three fixed ones) does not call the sync functions but offers every "
                        "VirtualServer change (spec, labels, status.externalEndpoints, irrelevant status noise) and foreign deletes/edits of the derived objects to the real "
-                       "event handlers with the real work queues, drained through the real processItem; freshness / gc / idempotence are judged on the cluster object after every synchronization that returns nil.  A history is distinct by its full input and non-trivial when at least one write was issued.  Fixed witness histories of "
+                       "event handlers with the real work queues, drained by the real worker loops (runWorker -> processItem -> SyncFnFor, real AddRateLimited / Forget / Done on the real work queue; Get returns instead of blocking and the back-off delay is skipped), including steps in which a write fails and is retried, followed by further edits; freshness / gc / idempotence are judged on the cluster object after every synchronization that returns nil.  A history is distinct by its full input and non-trivial when at least one write was issued.  Fixed witness histories of "
                        "the refutation theorems run first.")
     run.cov["trusted_base"] = TRUSTED
     run.assumptions += ["the lister reflects the cluster at the start of every synchronization (explicit hypothesis: C20_lister_reflects_cluster; established by the "
